@@ -116,6 +116,7 @@ sim::Json generate(const std::string& tier, uint64_t seed, uint64_t index) {
   sc.set("names", rng.chance(0.5));
   sc.set("text", rng.chance(0.5)); sc.set("comments", rng.chance(0.5));
   sc.set("points_seed", (double)rng.below(1000000));
+  sc.set("default_nlopts", rng.chance(0.15));   // the caller never calls SetNLOptions(): "if not provided, default is used" (binary, no comments)
   sc.set("capi", rng.chance(0.35));       // build the model and drive the solver through the C flavour of the same API (api/c/*.h)
   sc.set("sens", rng.chance(0.5));        // ask for sensitivity ranges: real-valued variable and constraint suffixes come back
   // history: in 35 % of the scenarios the same NLSolver object, the same PreprocessData and the same file stub have already
@@ -448,7 +449,7 @@ sim::RunResult run(const sim::Json& sc) {
       if (!capi) {
         mp::NLSolver nls(&utils);
         nls.SetFileStub(g.scratch + "stub");
-        nls.SetNLOptions(opts);
+        if (!sc["default_nlopts"].as_bool()) nls.SetNLOptions(opts);
         if (has_prev) {
           if (!nls.LoadModel(static_cast<const mp::NLModel&>(prev))) err_b = std::string("LoadModel(earlier): ") + nls.GetErrorMessage();
           else if (sc["prev"]["mode"].as_int() == 2) { if (nls.Solve("simdrv", drv_opts)) { mp::NLSolution s0 = nls.ReadSolution(); (void)s0; } }
@@ -462,7 +463,7 @@ sim::RunResult run(const sim::Json& sc) {
         NLW2_NLUtils_C cu = NLW2_MakeNLUtils_C_Default();
         NLW2_NLSolver_C cs = NLW2_MakeNLSolver_C(&cu);
         NLW2_SetFileStub_C(&cs, (g.scratch + "stub").c_str());
-        NLW2_SetNLOptions_C(&cs, opts);
+        if (!sc["default_nlopts"].as_bool()) NLW2_SetNLOptions_C(&cs, opts);
         if (has_prev) {
           if (!NLW2_LoadNLModel_C(&cs, &pcm)) err_b = std::string("LoadModel(earlier): ") + NLW2_GetErrorMessage_C(&cs);
           else if (sc["prev"]["mode"].as_int() == 2) { if (NLW2_RunSolver_C(&cs, "simdrv", drv_opts)) { NLW2_NLSolution_C s0 = NLW2_ReadSolution_C(&cs); (void)s0; } }
@@ -502,6 +503,12 @@ sim::RunResult run(const sim::Json& sc) {
   if (::getenv("VERIF_DUMP")) {
     std::string nl; sim::read_file(g.scratch + "a.nl", nl);
     fprintf(stderr, "---- a.nl (%zu bytes):\n%s\n---- exc=%s err_a=%s err_b=%s\n", nl.size(), nl.substr(0, 1500).c_str(), exc.c_str(), err_a.c_str(), err_b.c_str());
+  }
+  if (sc["default_nlopts"].as_bool() && err_b.empty()) {
+    std::string nl; sim::read_file(g.scratch + "stub.nl", nl);
+    r.stats.set("default_nlopts", 1);
+    if (!nl.empty() && nl[0] != 'b') flag("WRONG_DEFAULT_FORMAT", "nlopts", "SetNLOptions() was never called: the documented default is binary without comments, the file starts with '" + nl.substr(0, 12) + "'");
+    if (nl.find("# problem") != std::string::npos && nl.find("\t#") != std::string::npos && nl[0] == 'g') flag("WRONG_DEFAULT_FORMAT", "comments", "default options: comments written");
   }
   if (!exc.empty()) flag("EXCEPTION", "client", exc);
   if (exited) flag("EXITED", "client", "simulated process exit inside the loop");
